@@ -38,3 +38,10 @@ Definition copy_args_src {num : Type} (sH0 : num) (sflat : bool) (som sol : num)
   : num * option num * bool * num * num * option num := (sH0, None, sflat, som, sol, sok).
 Definition reduce_args_src {num : Type} (rH0 : num) (rflat : bool) (rom rol rok : num)
   : num * option num * bool * num * num * option num := (rH0, None, rflat, rom, rol, Some rok).
+(* the scalar/array dispatch of the two-argument methods: (isscalar zmin, isscalar zmax, len zmin != len zmax) ->
+   0 scalar entry point, 1 _vec1, 2 _vec2, 3 _2vec, 4 ValueError *)
+Definition dispatch_src_Dc (sa sb ne : bool) : nat := (if (sa && sb) then 0%nat else if ((negb sa) && sb) then 1%nat else if (sa && (negb sb)) then 2%nat else if ((negb sa) && (negb sb)) then (if ne then 4%nat else 3%nat) else 4%nat)%bool.
+Definition dispatch_src_Dm (sa sb ne : bool) : nat := (if (sa && sb) then 0%nat else if ((negb sa) && sb) then 1%nat else if (sa && (negb sb)) then 2%nat else if ((negb sa) && (negb sb)) then (if ne then 4%nat else 3%nat) else 4%nat)%bool.
+Definition dispatch_src_Da (sa sb ne : bool) : nat := (if (sa && sb) then 0%nat else if ((negb sa) && sb) then 1%nat else if (sa && (negb sb)) then 2%nat else if ((negb sa) && (negb sb)) then (if ne then 4%nat else 3%nat) else 4%nat)%bool.
+Definition dispatch_src_Dl (sa sb ne : bool) : nat := (if (sa && sb) then 0%nat else if ((negb sa) && sb) then 1%nat else if (sa && (negb sb)) then 2%nat else if ((negb sa) && (negb sb)) then (if ne then 4%nat else 3%nat) else 4%nat)%bool.
+Definition dispatch_src_sigmacritinv (sa sb ne : bool) : nat := (if (sa && sb) then 0%nat else if ((negb sa) && sb) then 1%nat else if (sa && (negb sb)) then 2%nat else if ((negb sa) && (negb sb)) then (if ne then 4%nat else 3%nat) else 4%nat)%bool.
